@@ -202,10 +202,13 @@ def herm_pd(rng, n, real, kappa_max=1e4, min_gap=1e-3):
     gap >= min_gap (np.linalg.eig based kernels need distinct eigenvalues for
     orthogonal eigenvectors)."""
     kappa = float(np.exp(rng.uniform(0, np.log(kappa_max))))
-    while True:
+    kappa = max(kappa, (1 + min_gap) ** (2 * n))        # room for n separated values
+    for _ in range(50):
         lam = np.sort(np.exp(rng.uniform(-np.log(kappa), 0, n)))[::-1]
         if n == 1 or np.min(lam[:-1] / lam[1:]) >= 1 + min_gap:
             break
+    else:       # rejection sampling failed: geometric spacing (always separated)
+        lam = kappa ** (-np.arange(n) / max(n - 1, 1))
     lam = lam * 10.0 ** rng.uniform(-2, 2)
     U = num.rand_unitary(rng, n, real)
     C = (U * lam) @ herm(U)
